@@ -45,7 +45,7 @@ def num(x):
 
 def classify(cfg):
     """model class of a configuration, for matching known findings"""
-    n = cfg["name"]
+    n = cfg.get("base", cfg["name"])
     if n.startswith("fn_pcsaft"):
         return "Functional(PcSaft)"
     if n.startswith("uv_bh"):
@@ -88,8 +88,12 @@ def run(ctx):
         cls = classify(cfg)
         for e in known:
             k = e.get("key", {})
-            if k.get("model") in (cls, "any") and k.get("kind") == kind and k.get("contribution") in (None, contribution) \
-                    and ("configs" not in k or cfg["name"] in k["configs"]):
+            # boundary compositions are compared through the oracle only (no per-contribution localisation): for them a finding
+            # listed for the configuration matches whatever its contribution
+            is_edge = cfg.get("base", cfg["name"]) != cfg["name"]
+            if k.get("model") in (cls, "any") and k.get("kind") == kind \
+                    and (k.get("contribution") in (None, contribution) or (is_edge and "configs" in k)) \
+                    and ("configs" not in k or cfg.get("base", cfg["name"]) in k["configs"]):
                 V.report_known(ctx, e)
                 return
         V.violation(ctx, "%s [%s]: %s" % (cfg["name"], cls, what), dict(detail, config=cfg["name"], model_class=cls,
